@@ -30,6 +30,7 @@ BRIDGES = ['C14.wfq_put_generated_eq_model', 'C14.wfq_vtime_generated_eq_model',
 HAND_MODELLED = ['WFQ.run / VC.run (generator control flow and WFQ\'s bookkeeping after a transmission: class_count, active_set.remove, reset)',
                  'Scheduler.send_packet (control flow, per-flow counters; its transmission delay is translated for C12: Generated/SchedTx.lean)', 'Scheduler.add_packet_to_queue', 'WFQ.__init__ / VC.__init__',
                  'the dict / set containers themselves (association lists in the model; the translated code sees one class)']
+EXTRA_MODULES = ('OnlVerif.Props.C14K',)
 _PREP = {}
 
 
@@ -98,7 +99,617 @@ def oracle(c, run):
     return fails, {'ties': ties, 'full_ties': full, 'fair_pairs': pairs}
 
 
+# ---- BEGIN vck leg: VC as processes on the kernel MODEL (lean/OnlVerif/Net/VCOnK.lean, driver mode `vck`) ----
+def run_vck(ctx, res=None):
+    """Extra leg for Props/C14K.lean: the K program of the VirtualClock scheduler (put / send_packet / run + a source process),
+    run at Float by the compiled driver, against the real VC with a real source process on the real kernel under env.run()
+    (a subclass taps put() and send_packet(), the store's get is wrapped, a recording `out`), compared line for line (every
+    put / stamp / get / serve / out with the clock resp. the stamp as bit patterns, final counters, vc / aux_vc, dict key orders);
+    plus C12/C14 restated over the implementation's own observations.  Called twice from run(): without `res` it answers
+    whether ctx.replay is a replay of this leg (then only this leg runs); with the result dict of the main leg it appends its
+    coverage / disagreements / failures."""
+    from vlib.util import bits, unbits, quiet, run_driver, split_cases
+    from onl.sim import Environment
+    from onl.packet import Packet
+    from onl.scheduler import VC
+
+    def replay_cases():
+        j = json.load(open(ctx.replay))
+        cs = ([j['case']] if j.get('case') else []) + [d['case'] for d in (j.get('broken_correspondence') or []) if d.get('case')]
+        return [c for c in cs if isinstance(c, dict) and c.get('kind') == 'vck']
+
+    if res is None:
+        if not (ctx.replay and replay_cases()):
+            return None
+        res = {'coverage': {'evaluations': 0, 'distinct_nontrivial': 0, 'rule': 'replay of a vck case', 'samples': []},
+               'disagreements': [], 'oracle_failures': []}
+        run_vck(ctx, res)
+        k = res['coverage']['vc_on_kernel_model']
+        res['coverage'].update(evaluations=k['evaluations'], distinct_nontrivial=k['distinct_nontrivial'], samples=[k['sample']])
+        return res
+
+    def keys_of(c):
+        """the (stamp, arrival instant) key of every packet, by the stamp rule"""
+        vt = dict(map(tuple, c['vticks']))
+        aux, t, ks = {k: 0 for k in vt}, 0.0, []
+        for gap, i, f, sz in c['arrivals']:
+            t = t + gap
+            aux[f] = max(t, aux[f]) + vt[f]
+            ks.append((aux[f], t))
+        return ks
+
+    def gen1(rng, cid):
+        F = rng.randint(1, 4)
+        classes = list(range(F))
+        rng.shuffle(classes)                             # insertion order of the vticks dict
+        pool = rng.choice([[1.0, 0.5, 2.0], [1.0, 1.0, 2.0, 0.5], [0.25, 0.75, 1.5, 3.0], None])
+        vticks = [(k, rng.choice(pool) if pool else round(rng.uniform(0.05, 3.0), 3)) for k in classes]
+        rate = rng.choice([8.0, 8.0, 8.0, 16.0, 4.0, 1000.0, 12345.678, 1e6 / 3])
+        n = rng.randint(0, 14)
+        shape = rng.choice(['burst', 'coincide', 'coincide', 'mixed', 'mixed', 'sparse', 'random', 'idle-return', 'ties', 'ties'])
+        if shape == 'ties':                              # stamps on a coarse grid under a standing backlog: equal stamps, different instants
+            vticks = [(k, rng.choice([0.5, 1.0, 1.0, 2.0])) for k in classes]
+        arr = []
+        for i in range(n):
+            if shape == 'burst':
+                gap = 0.0 if i else rng.choice([0.0, 1.0])
+            elif shape == 'coincide':                    # unit-size packets at rate 8: transmissions last 1.0, arrivals on the grid
+                gap = float(rng.choice([0, 0, 1, 1, 1, 2]))
+            elif shape == 'sparse':
+                gap = float(rng.choice([5, 10, 50]))
+            elif shape == 'ties':
+                gap = rng.choice([0.0, 0.5, 0.5, 1.0])
+            elif shape == 'random':
+                gap = rng.random() * 3
+            elif shape == 'idle-return':                 # a burst, a long silence (the class's aux_vc falls behind the clock), a burst
+                gap = 40.0 if i == n // 2 else rng.choice([0.0, 0.0, 0.5])
+            else:
+                gap = rng.choice([0.0, 0.0, 0.5, 1.0, 1.0, 2.0, 3.0, round(rng.random() * 4, 3)])
+            size = 1 if shape == 'coincide' else rng.choice([2, 4]) if shape == 'ties' else rng.choice([1, 1, 2, 3, 4, 100, 1500])
+            f = rng.randrange(F) if shape != 'idle-return' or F == 1 else (0 if rng.random() < 0.6 else rng.randrange(F))
+            arr.append([gap, i, f, size])
+        if shape in ('coincide', 'ties'):
+            rate = 8.0
+        return {'cid': f'v{cid}', 'kind': 'vck', 'F': F, 'vticks': vticks, 'rate': rate, 'arrivals': arr, 'shape': shape}
+
+    def gen(rng, cid):
+        # two packets with the same stamp AND the same arrival instant leave in an order that depends on heapq's layout (outside the
+        # model, DESIGN section 3); such workloads are left to the main leg, which accepts either order
+        for _ in range(200):
+            c = gen1(rng, cid)
+            ks = keys_of(c)
+            if len(set(ks)) == len(ks):
+                return c
+        c['arrivals'] = []
+        return c
+
+    def text(c):
+        return ([f"CASE {c['cid']} {bits(c['rate'])} {c['F']}"] + [f'vt {k} {bits(v)}' for k, v in c['vticks']]
+                + [f'arr {bits(g)} {i} {f} {sz}' for g, i, f, sz in c['arrivals']] + ['END'])
+
+    def impl(c):
+        env = Environment()
+        hist = []
+
+        class TapVC(VC):
+            def put(self, packet):
+                hist.append(f'put {packet.packet_id} {bits(env.now)}')
+                r = super().put(packet)
+                hist.append(f'stamp {bits(self.aux_vc[packet.flow_id])}')
+                return r
+
+            def send_packet(self, packet):
+                hist.append(f'serve {packet.packet_id} {bits(env.now)}')
+                return super().send_packet(packet)
+
+        class Rec:
+            def put(self, packet):
+                hist.append(f'out {packet.packet_id} {bits(env.now)}')
+        with quiet():
+            vc = TapVC(env, c['rate'], dict(map(tuple, c['vticks'])))
+        vc.out = Rec()
+        real_get = vc.store.get
+
+        def tapped_get(*a, **k):
+            hist.append(f'get {bits(env.now)}')
+            return real_get(*a, **k)
+        vc.store.get = tapped_get                        # run() has not started yet: its first burst is the Initialize event
+
+        def src():
+            for gap, i, f, sz in c['arrivals']:
+                yield env.timeout(gap)
+                vc.put(Packet(env.now, sz, i, src='src', flow_id=f))
+        env.process(src())
+        try:
+            with quiet():
+                env.run()
+            tag = 'RET'
+        except BaseException as x:        # noqa - the property says the run never raises
+            tag = f'RAISED {type(x).__name__}'
+        lines = [tag] + hist
+        try:                              # a changed implementation may lack an attribute: that is a disagreement, not a crash of the check
+            cur = vc.current_packet
+            lines += [f'cells rc={vc.packets_received} cur={"None" if cur is None else cur.packet_id} len={len(vc.store.items)}']
+            for f in range(c['F']):
+                lines.append(f'flow {f} count={vc.queue_count.get(f, 0)} bytes={vc.queue_byte_size.get(f, 0)}')
+            if list(vc.vc.keys()) != [k for k, _ in c['vticks']] or list(vc.aux_vc.keys()) != [k for k, _ in c['vticks']]:
+                lines.append(f'key order of vc / aux_vc: {list(vc.vc.keys())} {list(vc.aux_vc.keys())}')
+            for k, _ in c['vticks']:
+                lines.append(f'class {k} vc={bits(vc.vc[k])} aux={bits(vc.aux_vc[k])}')
+            lines.append(f'keys {list(vc.queue_count.keys())}')
+        except Exception as x:            # noqa
+            lines.append(f'final state unreadable: {type(x).__name__}')
+        return lines + [f'now {bits(env.now)}', 'oracle ok' if tag == 'RET' and not oracle_k(c, lines)[0] else 'oracle -' if tag != 'RET' else 'oracle REJECT']
+
+    def oracle_k(c, lines):
+        """C12/C14 (VirtualClock) restated over the implementation's own put / stamp / get / serve / out observations (exact float
+        equalities: Python computes max(now, aux) + vtick and the kernel now + delay itself): the run returns; every arrival is
+        stamped max(now, aux_vc[class]) + vtick[class]; the server asks for the next packet at instant 0 and then in the very
+        instant of each departure (never idle with a backlog); the packet handed to send_packet is one of those waiting when the
+        server asked (if none was: the first to arrive afterwards), none of them has a smaller (stamp, arrival instant), and it is the
+        oldest of its flow; it is handed over in the instant of the request resp. of its arrival; one packet at a time; out =
+        serve + 8*size/rate exactly; every packet leaves once"""
+        if lines[0] != 'RET':
+            return [{'what': f'the run ended with {lines[0]}', 'signature': 'vck-raised'}], {}
+        vt = dict(map(tuple, c['vticks']))
+        info = {i: (f, sz) for _, i, f, sz in c['arrivals']}
+        aux = {k: 0 for k in vt}
+        waiting, cand, busy, last_out, pend, outs = [], None, None, None, None, []
+        st = collections.Counter()
+        for l in lines[1:]:
+            w = l.split()
+            if w[0] not in ('put', 'stamp', 'get', 'serve', 'out'):
+                continue
+            if w[0] == 'put':
+                pend = (int(w[1]), unbits(int(w[2])))
+            elif w[0] == 'stamp':
+                x = unbits(int(w[1]))
+                if pend is None:
+                    return [{'what': 'a stamp without a put', 'signature': 'vck-shape'}], st
+                i, t = pend
+                k = info[i][0]
+                if x != max(t, aux[k]) + vt[k]:
+                    return [{'what': f'packet {i} of class {k} arriving at {t!r} is stamped {x!r}; max(now, aux_vc) + vtick = {max(t, aux[k]) + vt[k]!r}',
+                             'signature': 'vck-stamp'}], st
+                if aux[k] < t and aux[k] != 0:
+                    st['arrivals of a class whose aux_vc had fallen behind the clock'] += 1
+                aux[k] = x
+                waiting.append((i, x, t))
+                if cand is not None and not cand[0]:
+                    cand = ([(i, x, t)], t)
+                pend = None
+            elif w[0] == 'get':
+                t = unbits(int(w[1]))
+                if busy is not None or cand is not None:
+                    return [{'what': f'the server asks for a packet at {t!r} while it holds one', 'signature': 'vck-overlap'}], st
+                if t != (0.0 if last_out is None else last_out):
+                    return [{'what': f'the server asks for the next packet at {t!r}; the last transmission ended at {last_out!r}',
+                             'signature': 'vck-idle'}], st
+                cand = (list(waiting), t)
+            elif w[0] == 'serve':
+                i, t = int(w[1]), unbits(int(w[2]))
+                if busy is not None:
+                    return [{'what': f'packet {i} taken while {busy[0]} is in transmission', 'signature': 'vck-overlap'}], st
+                if cand is None or not [y for y in cand[0] if y[0] == i]:
+                    return [{'what': f'packet {i} is served but was not waiting when the store handed a packet over', 'signature': 'vck-not-waiting'}], st
+                me = [y for y in cand[0] if y[0] == i][0]
+                if t != cand[1]:
+                    return [{'what': f'packet {i} is handed over at {cand[1]!r} but its service starts at {t!r}', 'signature': 'vck-idle'}], st
+                lower = [y for y in cand[0] if (y[1], y[2]) < (me[1], me[2])]
+                if lower:
+                    return [{'what': f'packet {i} (stamp {me[1]!r}, arrived {me[2]!r}) is served while packet {lower[0][0]} '
+                                     f'(stamp {lower[0][1]!r}, arrived {lower[0][2]!r}) waits', 'signature': 'vck-min-stamp'}], st
+                if [y for y in waiting if info[y[0]][0] == info[i][0]][0][0] != i:
+                    return [{'what': f'packet {i} overtakes an older packet of its flow', 'signature': 'vck-flow-order'}], st
+                if len({info[y[0]][0] for y in cand[0]}) > 1:
+                    st['decisions among several classes'] += 1
+                if [y for y in cand[0] if y[0] != i and y[1] == me[1]]:
+                    st['decisions with an equal stamp waiting'] += 1
+                waiting = [y for y in waiting if y[0] != i]
+                busy, cand = (i, t), None
+            else:
+                i, t = int(w[1]), unbits(int(w[2]))
+                if busy is None or busy[0] != i:
+                    return [{'what': f'packet {i} leaves but is not the one in transmission', 'signature': 'vck-out'}], st
+                if t != busy[1] + info[i][1] * 8.0 / c['rate']:
+                    return [{'what': f'packet {i}: transmission {busy[1]!r} -> {t!r}, not 8*size/rate', 'signature': 'vck-tx-time'}], st
+                outs.append(i); busy = None; last_out = t
+        if busy is not None or waiting or sorted(outs) != sorted(info) or not (cand is not None and not cand[0]):
+            return [{'what': f'not every packet left: waiting {waiting[:6]}, in transmission {busy}', 'signature': 'vck-drain'}], st
+        return [], st
+
+    rng = random.Random(f'C14-vck-{ctx.seed}')
+    cases = replay_cases() if ctx.replay else [gen(rng, i) for i in range(300 if ctx.quick else 5000)]
+    txt, got = [], {}
+    for c in cases:
+        got[c['cid']] = impl(c)
+        txt += text(c)
+    model = split_cases(run_driver('vck', '\n'.join(txt) + '\n')) if cases else {}
+    hist, nontriv = collections.Counter(), 0
+    dis, orc = res['disagreements'], res['oracle_failures']
+    for c in cases:
+        a, b = got[c['cid']], model.get(c['cid'])
+        if a != b:
+            i = next((i for i in range(max(len(a), len(b or []))) if i >= len(a) or not b or i >= len(b) or a[i] != b[i]), 0)
+            dis.append({'case': c, 'detail': f'vck line {i}: impl `{a[i] if i < len(a) else None}` model `{b[i] if b and i < len(b) else None}`',
+                        'impl': a[:300], 'model': (b or [])[:300]})
+        fails, st = oracle_k(c, a)
+        for f in fails:
+            f['case'] = c; f['trace'] = a[:300]
+            orc.append(f)
+        ev = [l.split() for l in a if l.split()[0] in ('put', 'serve', 'out')]
+        out_t = {w[2] for w in ev if w[0] == 'out'}
+        coinc = sum(1 for w in ev if w[0] == 'put' and w[2] in out_t)
+        hist['packets'] += len(c['arrivals']); hist['arrivals at a transmission end'] += coinc
+        hist.update(st)
+        hist[f"classes:{c['F']}"] += 1
+        hist[f"shape:{c.get('shape')}"] += 1
+        if st.get('decisions among several classes') or coinc:
+            nontriv += 1
+    res['coverage']['vc_on_kernel_model'] = {
+        'evaluations': len(cases), 'distinct_nontrivial': nontriv, 'lines_compared': sum(len(v) for v in got.values()),
+        'rule': 'random vtick tables over 1-4 classes (equal vticks allowed, random dict order) x one source (bursts, arrivals on the grid of the '
+                'transmission ends, sparse, random gaps, a class going idle and returning) without two packets of equal stamp and equal '
+                'arrival instant, run by the K program at Float (driver mode vck) and by the real VC with a real source process under '
+                'env.run(); non-trivial = a decision among packets of several classes or an arrival at a transmission end',
+        'histogram': dict(sorted(hist.items())), 'sample': cases[0] if cases else None}
+    return None
+# ---- END vck leg ----
+
+
+# ---- BEGIN wfqk leg: WFQ as processes on the kernel MODEL (lean/OnlVerif/Net/WFQOnK.lean, driver mode `wfqk`) ----
+def run_wfqk(ctx, res=None):
+    """Extra leg for Props/C14KWfqExamples.lean: the K program of the WFQ scheduler (put / update_vtime / reset_vtime / send_packet /
+    run with its bookkeeping + a source process), run at Float by the compiled driver, against the real WFQ with a real source
+    process on the real kernel under env.run() (a subclass taps put(), update_vtime() / reset_vtime() inside put, and send_packet();
+    the store's get is wrapped - the loop calls it right after its bookkeeping, so the wrapper also reports the virtual time at the
+    end of each pass; a recording `out`), compared line for line (every put / vtime / stamp / get / serve / out / done with the clock
+    resp. the stamp / the virtual time as bit patterns, final counters, vtime, last_time, finish_times, class_count, active_set, dict
+    key orders); plus C14 for WFQ restated over the implementation's own observations.  Called twice from run(): without `res` it
+    answers whether ctx.replay is a replay of this leg (then only this leg runs); with the result dict of the main leg it appends
+    its coverage / disagreements / failures."""
+    from vlib.util import bits, unbits, quiet, run_driver, split_cases
+    from onl.sim import Environment
+    from onl.packet import Packet
+    from onl.scheduler import WFQ
+
+    def replay_cases():
+        j = json.load(open(ctx.replay))
+        cs = ([j['case']] if j.get('case') else []) + [d['case'] for d in (j.get('broken_correspondence') or []) if d.get('case')]
+        return [c for c in cs if isinstance(c, dict) and c.get('kind') == 'wfqk']
+
+    if res is None:
+        if not (ctx.replay and replay_cases()):
+            return None
+        res = {'coverage': {'evaluations': 0, 'distinct_nontrivial': 0, 'rule': 'replay of a wfqk case', 'samples': []},
+               'disagreements': [], 'oracle_failures': []}
+        run_wfqk(ctx, res)
+        k = res['coverage']['wfq_on_kernel_model']
+        res['coverage'].update(evaluations=k['evaluations'], distinct_nontrivial=k['distinct_nontrivial'], samples=[k['sample']])
+        return res
+
+    def gen1(rng, cid):
+        F = rng.randint(1, 4)
+        classes = list(range(F))
+        rng.shuffle(classes)                             # insertion order of the weights dict
+        pool = rng.choice([[1, 2, 3, 4], [1, 1, 2], [1.0, 2.0, 4.0, 0.5], [1, 3], [0.25, 0.5, 1.5, 2.0]])
+        weights = [(k, rng.choice(pool)) for k in classes]
+        rate = rng.choice([8.0, 8.0, 8.0, 16.0, 4.0, 1000.0, 12345.678, 1e6 / 3])
+        n = rng.randint(0, 14)
+        shape = rng.choice(['burst', 'coincide', 'coincide', 'mixed', 'mixed', 'sparse', 'sparse', 'random', 'idle-return', 'ties', 'ties'])
+        if shape == 'ties':                              # finish times on a coarse grid under a standing backlog: equal stamps, different instants
+            weights = [(k, rng.choice([1, 1, 2])) for k in classes]
+        arr = []
+        for i in range(n):
+            if shape == 'burst':
+                gap = 0.0 if i else rng.choice([0.0, 1.0])
+            elif shape == 'coincide':                    # unit-size packets at rate 8: transmissions last 1.0, arrivals on the grid
+                gap = float(rng.choice([0, 0, 1, 1, 1, 2]))
+            elif shape == 'sparse':                      # busy periods that end and restart: the vtime reset
+                gap = float(rng.choice([0, 0, 1, 3, 5, 10, 50]))
+            elif shape == 'ties':                        # the classes start together (V = 0), later arrivals are stamped F + d while V lags behind
+                gap = 0.0 if i < min(F, 3) else rng.choice([0.25, 0.5, 0.5, 1.0])
+            elif shape == 'random':
+                gap = rng.random() * 3
+            elif shape == 'idle-return':                 # a burst, a long silence (the busy period ends), a burst
+                gap = 40.0 if i == n // 2 else rng.choice([0.0, 0.0, 0.5])
+            else:
+                gap = rng.choice([0.0, 0.0, 0.5, 1.0, 1.0, 2.0, 3.0, round(rng.random() * 4, 3)])
+            size = (1 if shape == 'coincide' else rng.choice([2, 4]) if shape == 'ties' else rng.choice([1, 1, 2]) if shape == 'sparse'
+                    else rng.choice([1, 1, 2, 3, 4, 100, 1500]))
+            f = (i if shape == 'ties' and i < min(F, 3) else rng.randrange(F) if shape != 'idle-return' or F == 1
+                 else (0 if rng.random() < 0.6 else rng.randrange(F)))
+            if shape == 'ties' and i < min(F, 3):        # the first packet of class i is stamped 2(i + 1)
+                size = 2 * (i + 1) * dict(weights)[f]
+            arr.append([gap, i, f, size])
+        if shape in ('coincide', 'ties', 'sparse'):
+            rate = 8.0
+        return {'cid': f'w{cid}', 'kind': 'wfqk', 'F': F, 'weights': weights, 'rate': rate, 'arrivals': arr, 'shape': shape}
+
+    def text(c):
+        return ([f"CASE {c['cid']} {bits(c['rate'])} {c['F']}"] + [f'w {k} {bits(v)}' for k, v in c['weights']]
+                + [f'arr {bits(g)} {i} {f} {sz}' for g, i, f, sz in c['arrivals']] + ['END'])
+
+    def impl(c):
+        env = Environment()
+        hist = []
+        state = {'in_put': False, 'gets': 0}
+
+        class TapWFQ(WFQ):
+            def put(self, packet):
+                hist.append(f'put {packet.packet_id} {bits(env.now)}')
+                state['in_put'] = True
+                try:
+                    r = super().put(packet)
+                finally:
+                    state['in_put'] = False
+                hist.append(f'stamp {bits(self.finish_times[packet.flow_id])}')
+                return r
+
+            def update_vtime(self):
+                super().update_vtime()
+                if state['in_put']:
+                    hist.append(f'vtime {bits(self.vtime)}')
+
+            def reset_vtime(self):
+                super().reset_vtime()
+                if state['in_put']:
+                    hist.append(f'vtime {bits(self.vtime)}')
+
+            def send_packet(self, packet):
+                hist.append(f'serve {packet.packet_id} {bits(env.now)}')
+                return super().send_packet(packet)
+
+        class Rec:
+            def put(self, packet):
+                hist.append(f'out {packet.packet_id} {bits(env.now)}')
+        with quiet():
+            wfq = TapWFQ(env, c['rate'], dict(map(tuple, c['weights'])))
+        wfq.out = Rec()
+        real_get = wfq.store.get
+
+        def tapped_get(*a, **k):
+            if state['gets']:                            # the loop calls store.get() right after its bookkeeping (last_time = env.now)
+                hist.append(f'done {bits(wfq.vtime)}')
+            state['gets'] += 1
+            hist.append(f'get {bits(env.now)}')
+            return real_get(*a, **k)
+        wfq.store.get = tapped_get                       # run() has not started yet: its first burst is the Initialize event
+
+        def src():
+            for gap, i, f, sz in c['arrivals']:
+                yield env.timeout(gap)
+                wfq.put(Packet(env.now, sz, i, src='src', flow_id=f))
+        env.process(src())
+        try:
+            with quiet():
+                env.run()
+            tag = 'RET'
+        except BaseException as x:        # noqa - the property says the run never raises
+            tag = f'RAISED {type(x).__name__}'
+        lines = [tag] + hist
+        try:                              # a changed implementation may lack an attribute: that is a disagreement, not a crash of the check
+            cur = wfq.current_packet
+            lines += [f'cells rc={wfq.packets_received} cur={"None" if cur is None else cur.packet_id} len={len(wfq.store.items)}']
+            for f in range(c['F']):
+                lines.append(f'flow {f} count={wfq.queue_count.get(f, 0)} bytes={wfq.queue_byte_size.get(f, 0)}')
+            lines.append(f'vtime {bits(wfq.vtime)} last_time {bits(wfq.last_time)}')
+            if wfq.finish_times and list(wfq.finish_times.keys()) != [k for k, _ in c['weights']]:
+                lines.append(f'key order of finish_times: {list(wfq.finish_times.keys())}')
+            for k, _ in c['weights']:
+                lines.append(f'class {k} finish={bits(wfq.finish_times[k]) if k in wfq.finish_times else "-"} '
+                             f'count={wfq.class_count.get(k, "-")} active={1 if k in wfq.active_set else 0}')
+            lines.append(f'keys {list(wfq.queue_count.keys())}')
+            lines.append(f'ckeys {list(wfq.class_count.keys())}')
+        except Exception as x:            # noqa
+            lines.append(f'final state unreadable: {type(x).__name__}')
+        return lines + [f'now {bits(env.now)}', 'oracle ok' if tag == 'RET' and not oracle_k(c, lines)[0] else 'oracle -' if tag != 'RET' else 'oracle REJECT']
+
+    def full_tie(lines):
+        """two packets with the same (stamp, arrival instant) key in the implementation's own run"""
+        ks, t = [], None
+        for l in lines:
+            w = l.split()
+            if w[0] == 'put':
+                t = w[2]
+            elif w[0] == 'stamp':
+                ks.append((w[1], t))
+        return len(set(ks)) != len(ks)
+
+    def gen(rng, cid):
+        # two packets with the same finish time AND the same arrival instant leave in an order that depends on heapq's layout (outside
+        # the model, DESIGN section 3); such workloads are left to the main leg, which accepts either order.  The keys are those of the
+        # implementation's own run
+        for _ in range(200):
+            c = gen1(rng, cid)
+            lines = impl(c)
+            if not full_tie(lines):
+                return c, lines
+        c['arrivals'] = []
+        return c, impl(c)
+
+    def oracle_k(c, lines):
+        """C14 (WFQ) restated over the implementation's own put / vtime / stamp / get / serve / out / done observations (exact float
+        equalities: Python computes the expressions itself): the run returns; at every arrival virtual time is 0 (and all finish
+        times are 0) when no packet is waiting or in transmission, else it has advanced by (now - last event instant) / sum of the
+        weights of the active classes (classes with a packet waiting, in transmission, or just departed and not yet booked out by
+        the loop); every arrival is stamped max(F_class, V) + 8*size/(rate*w_class); the server asks for the next packet at instant
+        0 and then in the very instant of each departure (never idle with a backlog); the packet handed to send_packet is one of
+        those waiting when the server asked (if none was: the first to arrive afterwards), none of them has a smaller (stamp,
+        arrival instant), and it is the oldest of its flow; it is handed over in the instant of the request resp. of its arrival;
+        one packet at a time; out = serve + 8*size/rate exactly; at the end of each pass of the loop virtual time has advanced to
+        the departure instant by the same rule and is 0 (with all finish times) when no packet is waiting any more; every packet
+        leaves once"""
+        if lines[0] != 'RET':
+            return [{'what': f'the run ended with {lines[0]}', 'signature': 'wfqk-raised'}], {}
+        wt = dict(map(tuple, c['weights']))
+        info = {i: (f, sz) for _, i, f, sz in c['arrivals']}
+        fin = {k: 0.0 for k in wt}
+        V, last = 0.0, 0.0
+        waiting, cand, busy, leaving, last_out, pend, outs = [], None, None, None, None, None, []
+        st = collections.Counter()
+
+        def advance(t):
+            act = {info[y[0]][0] for y in waiting} | ({info[busy[0]][0]} if busy else set()) | ({info[leaving][0]} if leaving is not None else set())
+            ws = 0.0
+            for k in sorted(act):
+                ws += wt[k]
+            return V + (t - last) / ws
+        for l in lines[1:]:
+            w = l.split()
+            if w[0] not in ('put', 'vtime', 'stamp', 'get', 'serve', 'out', 'done'):
+                continue
+            if w[0] == 'vtime' and len(w) != 2:          # the final `vtime … last_time …` line
+                continue
+            if w[0] == 'put':
+                if pend is not None:
+                    return [{'what': 'a put inside a put', 'signature': 'wfqk-shape'}], st
+                pend = (int(w[1]), unbits(int(w[2])), False)
+            elif w[0] == 'vtime':
+                v = unbits(int(w[1]))
+                if pend is None or pend[2]:
+                    return [{'what': 'a vtime observation without a put', 'signature': 'wfqk-shape'}], st
+                i, t, _ = pend
+                if not waiting and busy is None:
+                    if v != 0.0:
+                        return [{'what': f'packet {i} arrives at {t!r} at an empty scheduler and sees virtual time {v!r}, not 0', 'signature': 'wfqk-vtime-reset'}], st
+                    if leaving is not None:
+                        st['arrivals to an empty scheduler in the instant the last transmission ended (before the loop booked the packet out)'] += 1
+                    fin = {k: 0.0 for k in wt}
+                else:
+                    e = advance(t)
+                    if v != e:
+                        return [{'what': f'packet {i} arrives at {t!r} and sees virtual time {v!r}; V + (now - last)/sum of active weights = {e!r}',
+                                 'signature': 'wfqk-vtime'}], st
+                V = v
+                pend = (i, t, True)
+            elif w[0] == 'stamp':
+                x = unbits(int(w[1]))
+                if pend is None or not pend[2]:
+                    return [{'what': 'a stamp without a put / vtime', 'signature': 'wfqk-shape'}], st
+                i, t, _ = pend
+                k, sz = info[i]
+                e = max(fin[k], V) + sz * 8.0 / (c['rate'] * wt[k])
+                if x != e:
+                    return [{'what': f'packet {i} of class {k} arriving at {t!r} is stamped {x!r}; max(F, V) + 8*size/(rate*w) = {e!r}',
+                             'signature': 'wfqk-stamp'}], st
+                fin[k] = x
+                waiting.append((i, x, t))
+                if cand is not None and not cand[0]:
+                    cand = ([(i, x, t)], t)
+                last = t
+                pend = None
+            elif w[0] == 'get':
+                t = unbits(int(w[1]))
+                if busy is not None or cand is not None or leaving is not None:
+                    return [{'what': f'the server asks for a packet at {t!r} while it holds one', 'signature': 'wfqk-overlap'}], st
+                if t != (0.0 if last_out is None else last_out):
+                    return [{'what': f'the server asks for the next packet at {t!r}; the last transmission ended at {last_out!r}',
+                             'signature': 'wfqk-idle'}], st
+                cand = (list(waiting), t)
+            elif w[0] == 'serve':
+                i, t = int(w[1]), unbits(int(w[2]))
+                if busy is not None:
+                    return [{'what': f'packet {i} taken while {busy[0]} is in transmission', 'signature': 'wfqk-overlap'}], st
+                if cand is None or not [y for y in cand[0] if y[0] == i]:
+                    return [{'what': f'packet {i} is served but was not waiting when the store handed a packet over', 'signature': 'wfqk-not-waiting'}], st
+                me = [y for y in cand[0] if y[0] == i][0]
+                if t != cand[1]:
+                    return [{'what': f'packet {i} is handed over at {cand[1]!r} but its service starts at {t!r}', 'signature': 'wfqk-idle'}], st
+                lower = [y for y in cand[0] if (y[1], y[2]) < (me[1], me[2])]
+                if lower:
+                    return [{'what': f'packet {i} (stamp {me[1]!r}, arrived {me[2]!r}) is served while packet {lower[0][0]} '
+                                     f'(stamp {lower[0][1]!r}, arrived {lower[0][2]!r}) waits', 'signature': 'wfqk-min-stamp'}], st
+                if [y for y in waiting if info[y[0]][0] == info[i][0]][0][0] != i:
+                    return [{'what': f'packet {i} overtakes an older packet of its flow', 'signature': 'wfqk-flow-order'}], st
+                if len({info[y[0]][0] for y in cand[0]}) > 1:
+                    st['decisions among several classes'] += 1
+                if [y for y in cand[0] if y[0] != i and y[1] == me[1]]:
+                    st['decisions with an equal stamp waiting'] += 1
+                waiting = [y for y in waiting if y[0] != i]
+                busy, cand = (i, t), None
+            elif w[0] == 'out':
+                i, t = int(w[1]), unbits(int(w[2]))
+                if busy is None or busy[0] != i:
+                    return [{'what': f'packet {i} leaves but is not the one in transmission', 'signature': 'wfqk-out'}], st
+                if t != busy[1] + info[i][1] * 8.0 / c['rate']:
+                    return [{'what': f'packet {i}: transmission {busy[1]!r} -> {t!r}, not 8*size/rate', 'signature': 'wfqk-tx-time'}], st
+                outs.append(i); busy = None; leaving = i; last_out = t
+            else:
+                v = unbits(int(w[1]))
+                if leaving is None or pend is not None:
+                    return [{'what': 'the loop books a packet out that has not left', 'signature': 'wfqk-shape'}], st
+                e = advance(last_out)
+                if not waiting:
+                    st['busy periods ended (vtime reset)'] += 1
+                    if v != 0.0:
+                        return [{'what': f'the busy period ends at {last_out!r} and virtual time is {v!r}, not 0', 'signature': 'wfqk-vtime-reset'}], st
+                    fin = {k: 0.0 for k in wt}
+                elif v != e:
+                    return [{'what': f'after the departure of packet {leaving} at {last_out!r} virtual time is {v!r}; V + (now - last)/sum of active weights = {e!r}',
+                             'signature': 'wfqk-vtime'}], st
+                V, last, leaving = v, last_out, None
+        if busy is not None or waiting or leaving is not None or sorted(outs) != sorted(info) or not (cand is not None and not cand[0]):
+            return [{'what': f'not every packet left: waiting {waiting[:6]}, in transmission {busy}', 'signature': 'wfqk-drain'}], st
+        return [], st
+
+    rng = random.Random(f'C14-wfqk-{ctx.seed}')
+    if ctx.replay:
+        cases = replay_cases()
+        got = {c['cid']: impl(c) for c in cases}
+    else:
+        cases, got = [], {}
+        for i in range(300 if ctx.quick else 5000):
+            c, lines = gen(rng, i)
+            cases.append(c); got[c['cid']] = lines
+    txt = []
+    for c in cases:
+        txt += text(c)
+    model = split_cases(run_driver('wfqk', '\n'.join(txt) + '\n')) if cases else {}
+    hist, nontriv = collections.Counter(), 0
+    # counted, and 0 by construction in this leg: with ONE timeout-driven source the arrival would have to be scheduled after the
+    # sender's timeout, i.e. from a put during that transmission - whose packet is then still waiting.  The main leg reaches it.
+    hist['arrivals to an empty scheduler in the instant the last transmission ended (before the loop booked the packet out)'] = 0
+    dis, orc = res['disagreements'], res['oracle_failures']
+    for c in cases:
+        a, b = got[c['cid']], model.get(c['cid'])
+        if a != b:
+            i = next((i for i in range(max(len(a), len(b or []))) if i >= len(a) or not b or i >= len(b) or a[i] != b[i]), 0)
+            dis.append({'case': c, 'detail': f'wfqk line {i}: impl `{a[i] if i < len(a) else None}` model `{b[i] if b and i < len(b) else None}`',
+                        'impl': a[:300], 'model': (b or [])[:300]})
+        fails, st = oracle_k(c, a)
+        for f in fails:
+            f['case'] = c; f['trace'] = a[:300]
+            orc.append(f)
+        ev = [l.split() for l in a if l.split()[0] in ('put', 'serve', 'out')]
+        out_t = {w[2] for w in ev if w[0] == 'out'}
+        coinc = sum(1 for w in ev if w[0] == 'put' and w[2] in out_t)
+        hist['packets'] += len(c['arrivals']); hist['arrivals at a transmission end'] += coinc
+        hist.update(st)
+        hist[f"classes:{c['F']}"] += 1
+        hist[f"shape:{c.get('shape')}"] += 1
+        if st.get('decisions among several classes') or coinc:
+            nontriv += 1
+    res['coverage']['wfq_on_kernel_model'] = {
+        'evaluations': len(cases), 'distinct_nontrivial': nontriv, 'lines_compared': sum(len(v) for v in got.values()),
+        'rule': 'random weight tables (integers 1-4 or dyadic) over 1-4 classes (equal weights allowed, random dict order) x one source (bursts, '
+                'arrivals on the grid of the transmission ends, sparse traffic whose busy periods end and restart, random gaps, a long silence, '
+                'equal finish times) without two packets of equal finish time and equal arrival instant (judged on the implementation\'s own '
+                'run), run by the K program at Float (driver mode wfqk) and by the real WFQ with a real source process under env.run(); '
+                'non-trivial = a decision among packets of several classes or an arrival at a transmission end',
+        'histogram': dict(sorted(hist.items())), 'sample': cases[0] if cases else None}
+    return None
+# ---- END wfqk leg ----
+
+
 def run(ctx, prop='C14', n_quick=3000, n_thorough=50000):
+    if prop == 'C14':
+        vk = run_vck(ctx)                    # vck leg: a replay of one of its cases runs only that leg
+        if vk is not None:
+            return vk
+        wk = run_wfqk(ctx)                   # wfqk leg: likewise
+        if wk is not None:
+            return wk
     rng = random.Random(f'{prop}-{ctx.seed}')
     if ctx.replay:
         j = json.load(open(ctx.replay))
@@ -150,4 +761,8 @@ def run(ctx, prop='C14', n_quick=3000, n_thorough=50000):
         cov.update({'translated': _PREP.get('translated', []), 'generated_files_rewritten': _PREP.get('rewritten', []),
                     'generated_diff_vs_pinned': _PREP.get('diff_vs_pinned', []), 'bridge_theorems': BRIDGES,
                     'hand_modelled': HAND_MODELLED})
-    return {'coverage': cov, 'disagreements': dis, 'oracle_failures': orc}
+    res = {'coverage': cov, 'disagreements': dis, 'oracle_failures': orc}
+    if prop == 'C14':
+        run_vck(ctx, res)                    # vck leg: appends its coverage, disagreements and oracle failures in place
+        run_wfqk(ctx, res)                   # wfqk leg: likewise
+    return res
